@@ -264,6 +264,75 @@ class Fn:
                     break
         return out
 
+
+    # ---- branch conditions ------------------------------------------------------------------
+    def switch_operand(self, d, depth=8):
+        """def-use chain of the value switch block d branches on"""
+        t = self.blocks[d]["t"]
+        if t["k"] != "switch":
+            return None
+        return self.chain_operand(t["o"], depth)
+
+    def switch_sides(self, d, bb):
+        """labels ('0','1',..,'otherwise') of the successors of switch d from which bb is reachable without passing d again (or that are bb)"""
+        t = self.blocks[d]["t"]
+        vals = list(t.get("vals", []))
+        labels = vals + ["otherwise"] * (len(t["t"]) - len(vals))
+        out = []
+        for lab, s in zip(labels, t["t"]):
+            if s == bb or self.can_reach(s, bb, avoid=[d]):
+                out.append(lab)
+        return out
+
+    def conditions_of(self, bb, limit=8):
+        """control dependence, loop-aware: [(switch block, chain of its operand, sides taken towards bb)] for the switches that dominate bb
+        and decide whether bb is reached"""
+        out = []
+        x = bb
+        steps = 0
+        while x not in (-1, None) and steps < 400 and len(out) < limit:
+            d = self.idom[x]
+            if d is None or d < 0 or d == x:
+                break
+            t = self.blocks[d]["t"]
+            if t["k"] == "switch":
+                sides = self.switch_sides(d, bb)
+                n_real = len([s for s in t["t"] if self.blocks[s]["t"]["k"] != "unreachable"])
+                if 0 < len(sides) < n_real or (0 < len(sides) < len(t["t"]) and n_real == len(t["t"])):
+                    out.append((d, self.switch_operand(d), sides))
+            x = d
+            steps += 1
+        return out
+
+    def loop_exit_edges(self, h, body):
+        """edges (u, v) leaving the natural loop, ignoring cleanup and unreachable targets"""
+        out = []
+        for u in body:
+            for v in self.succ[u]:
+                if v not in body and not self.blocks[v].get("cleanup") and self.blocks[v]["t"]["k"] != "unreachable":
+                    out.append((u, v))
+        return out
+
+    def field_updates(self, field):
+        """read-modify-write updates of a field: [(bb, ln, op, constant or None, base chain)] for `x.field op= c`"""
+        out = []
+        for bi, b in enumerate(self.blocks):
+            if b.get("cleanup"):
+                continue
+            for s in b["s"]:
+                if len(s["p"]) > 1 and s["p"][-1] == "." + field:
+                    ch = self.chain_rvalue(s["rv"], 6, frozenset(), s["ln"])
+                    op, const = None, None
+                    for n in walk_chain(ch):
+                        if n.get("kind") == "bin":
+                            op = n["op"].replace("WithOverflow", "")
+                            for side in (n["l"], n["r"]):
+                                if side.get("kind") == "scalar":
+                                    const = side["value"]
+                            break
+                    out.append((bi, s["ln"], op, const, self.chain_place(s["p"][:-1], 8)))
+        return out
+
     # ---- def tables ------------------------------------------------------------------------
     @property
     def defs(self):
